@@ -10,6 +10,8 @@ possible (a state is treated as absorbing only when Lambda == 0 exactly); the re
 from the same buffer and Lambda with no intervening write; the recording loop precedes the state
 update; a state update only happens with current_time equal to the event time sampled in this
 iteration.
+R5.4 net stoichiometry: the matrix whose column a firing adds is the interface's immediate (+ delayed) array (C06 R6.1) and the
+shared arrays are never changed in place (C08 R8.4).
 Distributional equality itself is not decided.
 """
 import ast
